@@ -5,8 +5,9 @@ from math import sqrt
 from compyle.api import declare
 
 
-def printf(s):
-    print(s)
+def printf(*args):
+    # stand-in for the C printf the transpiled code calls: printf(fmt, ...)
+    print(*args)
 
 
 def SIGN(x=0.0, y=0.0):
